@@ -555,8 +555,15 @@ fn desc(b: Option<&Vec<u8>>) -> String {
 }
 
 // ------------------------------------------------------------------ generation (inside the worker: ops depend on the state)
-const FILES: [&str; 13] = ["a.txt", "b.txt", "d/x.txt", "d/y.txt", "d/e/z.txt", "n/o/p.txt", "sp ace.txt", "Makefile", "d/Makefile", ".hidden", "d/archive.tar.gz", "new.txt", "m/n/new.txt"];
-const N_EXISTING: usize = 11;
+// targets: plain, nested, blank in the name, no extension, dot file, double extension, names a tool might treat
+// specially (ignored by the workspace's own .gitignore, under .git / node_modules / target, upper case, composed and
+// decomposed accents), then two that do not exist at the start
+const FILES: [&str; 21] = [
+    "a.txt", "b.txt", "d/x.txt", "d/y.txt", "d/e/z.txt", "n/o/p.txt", "sp ace.txt", "Makefile", "d/Makefile", ".hidden", "d/archive.tar.gz",
+    "debug.log", ".git/config", "node_modules/pkg/index.js", "target/debug/out.o", "README.MD", "caf\u{e9}.txt", "cafe\u{301}.txt", ".gitignore",
+    "new.txt", "m/n/new.txt",
+];
+const N_EXISTING: usize = 19;
 
 // ---- decorations of a path argument: the grammar of harness/src/bin/c13.rs (builder ws13b), reduced to what keeps a
 // relative core relative or makes it refused, plus every blank str::trim knows about
@@ -698,11 +705,18 @@ fn gen_raw(r: &mut Rng) -> String {
         }
     }
 }
+fn init_content(p: &str) -> String {
+    if p == ".gitignore" {
+        "*.log\ntarget/\nnode_modules/\n".to_string()
+    } else {
+        format!("{p} v0\n")
+    }
+}
 fn gen_init(r: &mut Rng) -> Listing {
     let mut l = Listing::new();
     for p in FILES.iter().take(N_EXISTING) {
         if r.chance(2, 3) {
-            put_file(&mut l, p, &format!("{p} v0\n"));
+            put_file(&mut l, p, &init_content(p));
             if r.chance(1, 6) {
                 let c: Comps = p.split('/').map(|s| s.as_bytes().to_vec()).collect();
                 if let Some(Node::File(b)) = l.get_mut(&c) {
@@ -846,7 +860,10 @@ fn gen_op(r: &mut Rng, root: &std::path::Path, n_cks: usize, step: u64) -> Value
 /// workspace holding every sibling variant of every target; each call followed by the undo-by-effect check.
 /// `per_deco` = how many of the (target, tool) combinations each decoration gets (rotating); 0 = all.
 fn systematic(seed: u64, per_deco: usize) -> Vec<Value> {
-    const TARGETS: [&str; 9] = ["a.txt", "d/x.txt", "new.txt", "d/Makefile", ".hidden", "d/archive.tar.gz", "m/n/new.txt", "sp ace.txt", "d/..a"];
+    const TARGETS: [&str; 15] = [
+        "a.txt", "d/x.txt", "new.txt", "d/Makefile", ".hidden", "d/archive.tar.gz", "m/n/new.txt", "sp ace.txt", "d/..a", "debug.log", ".git/config", "node_modules/pkg/index.js",
+        "target/debug/out.o", "README.MD", "caf\u{e9}.txt",
+    ];
     let mut decos: Vec<(&str, &str, &str)> = vec![];
     for p in PREFIXES.iter() {
         decos.push((p, "id", ""));
@@ -866,11 +883,11 @@ fn systematic(seed: u64, per_deco: usize) -> Vec<Value> {
     let mut k = seed as usize;
     for (pre, inf, suf) in decos {
         // quick: one group of three targets (rotating); thorough: three groups covering all nine
-        let groups: Vec<Vec<usize>> = if per_deco == 0 { vec![vec![0, 1, 2], vec![3, 4, 5], vec![6, 7, 8]] } else { vec![(0..3).map(|i| (k + i * 3) % TARGETS.len()).collect()] };
+        let groups: Vec<Vec<usize>> = if per_deco == 0 { (0..5).map(|g| vec![3 * g, 3 * g + 1, 3 * g + 2]).collect() } else { vec![(0..3).map(|i| (k + i * 5) % TARGETS.len()).collect()] };
         for g in groups {
             let mut init = Listing::new();
             for p in FILES.iter().take(N_EXISTING) {
-                put_file(&mut init, p, &format!("{p} v0\n"));
+                put_file(&mut init, p, &init_content(p));
             }
             put_file(&mut init, "d/..a", "d/..a v0\n");
             for ti in &g {
@@ -938,6 +955,35 @@ fn big_cases(seed: u64, thorough: bool) -> Vec<Value> {
             ]}));
     }
     v
+}
+
+/// one patch / one history touching MANY files: 40 updates + 30 adds + 10 deletes + 5 moves in a single apply_patch call
+/// (a checkpoint that takes only the first n paths, or only one kind of header, shows), then the undo by effect
+fn wide_cases() -> Vec<Value> {
+    let mut init = serde_json::Map::new();
+    for i in 0..60 {
+        init.insert(format!("w/f{i:02}.txt"), json!(format!("f{i} v0\n")));
+    }
+    init.insert("w".into(), json!("<dir>"));
+    let mut ops = vec![];
+    for i in 0..40 {
+        ops.push(patch_lines(2, &format!("w/f{i:02}.txt"), &format!("f{i} v0"), "", 1));
+    }
+    for i in 0..30 {
+        ops.push(patch_lines(0, &format!("w/new{i:02}/added.txt"), "", "", 1));
+    }
+    for i in 40..50 {
+        ops.push(patch_lines(1, &format!("w/f{i:02}.txt"), "", "", 1));
+    }
+    for i in 50..55 {
+        ops.push(patch_lines(3, &format!("w/f{i:02}.txt"), &format!("f{i} v0"), &format!("w/moved/m{i}.txt"), 1));
+    }
+    let mut rev = ops.clone();
+    rev.reverse();
+    vec![
+        json!({"cwd": 0, "init": init, "ops": [{"op": "tool", "name": "apply_patch", "args": patch_op(ops), "undo": true}]}),
+        json!({"cwd": 2, "init": init, "ops": [{"op": "tool", "name": "apply_patch", "args": patch_op(rev), "undo": true, "undo_runner": true}]}),
+    ]
 }
 
 fn run_case(rt: &tokio::runtime::Runtime, case: &Value) -> Value {
@@ -1097,6 +1143,7 @@ fn main() {
     if a.replay.is_none() {
         jobs.extend(systematic(a.seed, if a.thorough() { 0 } else { 12 }));
         jobs.extend(big_cases(a.seed, a.thorough()));
+        jobs.extend(wide_cases());
         for _ in 0..n {
             jobs.push(json!({"seed": r.next(), "cwd": r.below(3), "n_ops": r.range(3, 10)}));
         }
